@@ -73,6 +73,8 @@ pub struct SimSer<'a> {
 pub struct Compound<'a> {
     st: &'a RefCell<SerState>,
     hr: bool,
+    /// the number of fields announced to serialize_struct (length-prefixed formats write their header from it)
+    announced: Option<usize>,
     /// "struct" for the documented form, anything else is reported by J1
     kind: String,
     name: String,
@@ -83,6 +85,15 @@ impl<'a> Compound<'a> {
     fn finish(self) -> Result<Node, SimError> {
         call(self.st, "end", &self.name)?;
         if self.kind == "struct" {
+            if let Some(n) = self.announced {
+                if n != self.fields.len() {
+                    // a length-prefixed format (MessagePack, CBOR, bincode's struct-as-tuple) would now hold a header
+                    // that does not match its body
+                    return Ok(Node::Other(format!(
+                        "a struct {:?} announced with {n} fields to serialize_struct but written with {} ({})", self.name, self.fields.len(),
+                        self.fields.iter().map(|(k, _)| k.as_str()).collect::<Vec<_>>().join(", "))));
+                }
+            }
             Ok(Node::Struct { name: self.name, fields: self.fields })
         } else {
             Ok(Node::Other(format!("a {} {:?} holding [{}]", self.kind, self.name, self.fields.iter().map(|(k, v)| format!("{k}:{}", v.show())).collect::<Vec<_>>().join(","))))
@@ -159,31 +170,31 @@ impl<'a> ser::Serializer for SimSer<'a> {
     }
     fn serialize_seq(self, _len: Option<usize>) -> Result<Compound<'a>, SimError> {
         call(self.st, "other", "seq")?;
-        Ok(Compound { st: self.st, hr: self.hr, kind: "sequence".into(), name: String::new(), fields: vec![] })
+        Ok(Compound { st: self.st, hr: self.hr, announced: None, kind: "sequence".into(), name: String::new(), fields: vec![] })
     }
     fn serialize_tuple(self, _len: usize) -> Result<Compound<'a>, SimError> {
         call(self.st, "other", "tuple")?;
-        Ok(Compound { st: self.st, hr: self.hr, kind: "tuple".into(), name: String::new(), fields: vec![] })
+        Ok(Compound { st: self.st, hr: self.hr, announced: None, kind: "tuple".into(), name: String::new(), fields: vec![] })
     }
     fn serialize_tuple_struct(self, name: &'static str, _len: usize) -> Result<Compound<'a>, SimError> {
         call(self.st, "other", "tuple_struct")?;
-        Ok(Compound { st: self.st, hr: self.hr, kind: "tuple struct".into(), name: name.into(), fields: vec![] })
+        Ok(Compound { st: self.st, hr: self.hr, announced: None, kind: "tuple struct".into(), name: name.into(), fields: vec![] })
     }
     fn serialize_tuple_variant(self, name: &'static str, _i: u32, variant: &'static str, _len: usize) -> Result<Compound<'a>, SimError> {
         call(self.st, "other", "tuple_variant")?;
-        Ok(Compound { st: self.st, hr: self.hr, kind: "tuple variant".into(), name: format!("{name}::{variant}"), fields: vec![] })
+        Ok(Compound { st: self.st, hr: self.hr, announced: None, kind: "tuple variant".into(), name: format!("{name}::{variant}"), fields: vec![] })
     }
     fn serialize_map(self, _len: Option<usize>) -> Result<Compound<'a>, SimError> {
         call(self.st, "other", "map")?;
-        Ok(Compound { st: self.st, hr: self.hr, kind: "map".into(), name: String::new(), fields: vec![] })
+        Ok(Compound { st: self.st, hr: self.hr, announced: None, kind: "map".into(), name: String::new(), fields: vec![] })
     }
     fn serialize_struct(self, name: &'static str, _len: usize) -> Result<Compound<'a>, SimError> {
         call(self.st, "struct", name)?;
-        Ok(Compound { st: self.st, hr: self.hr, kind: "struct".into(), name: name.into(), fields: vec![] })
+        Ok(Compound { st: self.st, hr: self.hr, announced: Some(_len), kind: "struct".into(), name: name.into(), fields: vec![] })
     }
     fn serialize_struct_variant(self, name: &'static str, _i: u32, variant: &'static str, _len: usize) -> Result<Compound<'a>, SimError> {
         call(self.st, "other", "struct_variant")?;
-        Ok(Compound { st: self.st, hr: self.hr, kind: "struct variant".into(), name: format!("{name}::{variant}"), fields: vec![] })
+        Ok(Compound { st: self.st, hr: self.hr, announced: None, kind: "struct variant".into(), name: format!("{name}::{variant}"), fields: vec![] })
     }
     fn is_human_readable(&self) -> bool {
         self.hr
